@@ -147,6 +147,14 @@ func (in *Interp) step(s *State, th *Thread, f *Frame, instr ssa.Instruction) []
 		f.set(x, in.get(s, f, x.X))
 		f.ip++
 	case *ssa.Convert:
+		if tgt := in.convertViaRT(s, x.X.Type(), x.Type(), in.get(s, f, x.X)); tgt != "" {
+			fn := in.rtPkg.Func(tgt)
+			if fn == nil {
+				in.unsup("verifrt.%s missing", tgt)
+			}
+			in.pushFrame(s, th, fn, []Value{in.get(s, f, x.X)}, nil, x, retNormal)
+			return nil
+		}
 		f.set(x, in.convert(s, x.X.Type(), x.Type(), in.get(s, f, x.X), x))
 		f.ip++
 	case *ssa.MultiConvert:
@@ -512,6 +520,46 @@ func (in *Interp) valueEq(a, b Value) *term.Term {
 	return nil
 }
 
+// convertViaRT names the verifrt helper that performs a conversion on symbolic data
+// (string <-> []rune, rune -> string), or "".
+func (in *Interp) convertViaRT(s *State, from, to types.Type, v Value) string {
+	fu, tu := from.Underlying(), to.Underlying()
+	isStr := func(t types.Type) bool {
+		b, ok := t.(*types.Basic)
+		return ok && b.Info()&types.IsString != 0
+	}
+	isRunes := func(t types.Type) bool {
+		sl, ok := t.(*types.Slice)
+		if !ok {
+			return false
+		}
+		b, ok := sl.Elem().Underlying().(*types.Basic)
+		return ok && b.Kind() == types.Int32
+	}
+	switch {
+	case isStr(fu) && isRunes(tu):
+		if str := v.(*Str); str.B != nil {
+			return "StringToRunes"
+		}
+	case isRunes(fu) && isStr(tu):
+		sl := v.(*Slice)
+		for i := 0; i < sl.Len; i++ {
+			if t := in.load(s, sl.Arr.child(PathElem{Idx: sl.Off + i})).(*term.Term); !t.IsConst() {
+				return "RunesToString"
+			}
+		}
+	case isStr(tu):
+		if b, ok := fu.(*types.Basic); ok && b.Info()&types.IsInteger != 0 {
+			if t := v.(*term.Term); !t.IsConst() {
+				if b.Kind() == types.Int32 {
+					return "RuneToString"
+				}
+			}
+		}
+	}
+	return ""
+}
+
 func (in *Interp) convert(s *State, from, to types.Type, v Value, at ssa.Instruction) Value {
 	fu, tu := from.Underlying(), to.Underlying()
 	fb, fok := fu.(*types.Basic)
@@ -667,7 +715,7 @@ func (in *Interp) indexAddr(s *State, f *Frame, x *ssa.IndexAddr) []*State {
 	if !ok {
 		panic(goPanic{msg: fmt.Sprintf("index out of range (symbolic index) with length %d at %s", n, in.pos(x))})
 	}
-	if !mergeable(elemT) || n > 64 {
+	if !mergeable(elemT) || n > 256 {
 		_, forks := in.concretize(s, f, x.Index, "index")
 		if forks != nil {
 			return forks
